@@ -3,6 +3,7 @@ CONSTANT Thread = {t1, t2}
 CONSTANT MaxOps = 3
 CONSTANT AtomicId = TRUE
 CONSTANT StackScratch = TRUE
+CONSTANT PerThreadInit = TRUE
 CONSTANT OwnedDrop = FALSE
 INVARIANT NonInterference
 INVARIANT NamesUnique
